@@ -216,7 +216,10 @@ def run(res, f, tier):
         else:
             ok = len(outs) == 1 and outs[0][1].startswith("Err(ValueSerializationError(")
         ob(ok, "C13|key|StringSerializer::%s" % m, "the map-key serializer must accept strings only and reject %s with an error: %s" % (m, outs))
+    import control
+    controls = control.hazard_controls()
     res.coverage = {
+        "positive_controls": controls,
         "explanation": "hazard sites of all %d serializer bodies (+closures) classified; %d Serializer methods of ValueSerializer, %d collector methods and %d "
                        "StringSerializer methods summarised (tag-symbolic, with the collector state after the call) and compared with the per-kind mapping"
                        % (len(bodies), len(vs_methods), len([k for k in ser_bodies if k[1] != "Serializer"]), len(ss_methods)),
